@@ -94,6 +94,9 @@ def run(facts, R):
             if c.get("trait") == "futures_util::SinkExt" and c["name"] in ("send", "feed", "send_all") and WSMSG in (c.get("self_ty") or ""):
                 n_send += 1
                 origs = trace_op(b, t["args"][1])
+                # (the Some payload of a value that one path builds as `None` comes from no path: the let-else took the None away)
+                origs = [o for o in origs if not (o.kind == "agg" and str(o.info.get("adt", "")).endswith("Option") and o.info.get("variant") == "None" and o.path
+                                                  and str(o.path[0]).startswith("Some"))]
                 ok = bool(origs) and all(o.kind == "agg" and o.info.get("adt") == WSMSG for o in origs)
                 R.check(ok, "binary-is-guarded", b.path, "sink.%s-arg" % c["name"],
                         "a message that was not built (and guarded) in this function is sent: %s" % origs, t.get("span"),
